@@ -12,7 +12,7 @@ from __future__ import annotations
 import ast
 
 from mlmverif import cfg as cfgm
-from mlmverif.core import (AnalysisError, Ctx, FuncInfo, is_self_attr, norm,
+from mlmverif.core import (parent_map, AnalysisError, Ctx, FuncInfo, is_self_attr, norm,
                            unparse, walk_no_nested)
 from mlmverif.locks import ls_str
 from mlmverif.props._queue import DEQ, ENQ, QCLS, QMOD, STATES, model
@@ -50,7 +50,7 @@ def _in_family(m, fi: FuncInfo) -> bool:
 def run(ctx: Ctx):
   m = model(ctx)
   eng = m.eng
-  for r in (r1, r2, r3, r4, r5, r6, r7, r8, r9):
+  for r in (r1, r2, r3, r4, r5, r6, r7, r8, r9, r10, r11):
     ctx.guard(r, m)
   if eng.unknown_lock_exprs:
     ctx.note('lock-like expressions not resolved: '
@@ -684,12 +684,160 @@ def r9(ctx: Ctx, m):
   ctx.floor(rule, 1, n)
 
 
+def r10(ctx: Ctx, m):
+  rule = 'R-C04-10'
+  ctx.rule(rule, 'the declared producer count never shrinks: outside the'
+           ' constructor every store to the count that end-of-stream is'
+           ' compared against (`_max_enqueuer` in enqueue_done) has the form'
+           ' max(<itself>, x) or is guarded by `x > <itself>` — otherwise a'
+           ' producer that starts late lowers the count and consumers see'
+           ' end-of-stream while declared producers have not started')
+  from mlmverif import pat
+  done = m.repo.find_method(m.qcls, 'enqueue_done')
+  if done is None:
+    raise AnalysisError(f'{rule}: IteratorQueue.enqueue_done not found')
+  cnt = None
+  for c in ast.walk(done.node):
+    if isinstance(c, ast.Compare) and len(c.comparators) == 2 and all(
+        isinstance(o, ast.Eq) for o in c.ops) and is_self_attr(c.comparators[-1]):
+      cnt = c.comparators[-1].attr
+  if cnt is None:
+    raise AnalysisError(f'{rule}: enqueue_done is no longer start == stop == <count>')
+  n = 0
+  for fi in m.methods():
+    if fi.name == '__init__':
+      continue
+    pm = parent_map(fi.node)
+    for x in walk_no_nested(fi.node):
+      stores = []
+      if isinstance(x, ast.Assign):
+        stores = [t for t in x.targets if is_self_attr(t, cnt)]
+      elif isinstance(x, ast.AugAssign) and is_self_attr(x.target, cnt):
+        n += 1
+        if isinstance(x.op, ast.Add):
+          ctx.ok(rule, fi, f'{fi.qualname}: {unparse(x)}', x)
+        else:
+          ctx.fail(rule, fi, x, f'{fi.qualname} decreases the declared producer count')
+        continue
+      if not stores:
+        continue
+      n += 1
+      v = x.value
+      ok = False
+      if isinstance(v, ast.Call) and unparse(v.func) == 'max' and any(
+          is_self_attr(a, cnt) for a in v.args):
+        ok = True
+      else:
+        # guarded: if <v> > self.<cnt>: self.<cnt> = <v>
+        p = pm.get(x)
+        if isinstance(p, ast.If) and x in p.body and isinstance(p.test, ast.Compare) and len(
+            p.test.ops) == 1:
+          l, r_ = p.test.left, p.test.comparators[0]
+          op = p.test.ops[0]
+          if isinstance(op, (ast.Gt, ast.GtE)) and unparse(l) == unparse(v) and is_self_attr(r_, cnt):
+            ok = True
+          if isinstance(op, (ast.Lt, ast.LtE)) and unparse(r_) == unparse(v) and is_self_attr(l, cnt):
+            ok = True
+      if ok:
+        ctx.ok(rule, fi, f'{fi.qualname}: `{unparse(x)[:60]}` is monotone', x)
+      else:
+        ctx.fail(rule, fi, x,
+                 f'{fi.qualname} overwrites the declared producer count with'
+                 f' `{unparse(v)[:50]}`, which can be smaller than the current'
+                 ' value: with producers starting one after another the count'
+                 ' drops to the number started so far and enqueue_done turns'
+                 ' true while declared producers have not run (premature'
+                 ' end-of-stream, lost elements)')
+  ctx.floor(rule, 1, n)
+
+
+def _result_empty_edge(n, mm, lab) -> bool:
+  """False for edges on which the accumulated batch is known to be empty."""
+  if n.kind != 'cond':
+    return True
+  t = n.ast
+  names = lambda e: isinstance(e, ast.Name) and e.id == _result_empty_edge.var
+  if names(t) and lab == 'false':
+    return False
+  if isinstance(t, ast.UnaryOp) and isinstance(t.op, ast.Not) and names(t.operand) and lab == 'true':
+    return False
+  if isinstance(t, ast.BoolOp) and isinstance(t.op, ast.Or) and any(names(v) for v in t.values) and (
+      lab == 'false'):
+    return False
+  return True
+
+
+def r11(ctx: Ctx, m):
+  rule = 'R-C04-11'
+  ctx.rule(rule, 'a batch in progress is never discarded: in get_batch no'
+           ' `raise` is reachable from a successful dequeue into the batch'
+           ' list except over an edge on which that list is known empty'
+           ' (`if <list>: break/return` taken false) — elements already'
+           ' removed from the queue would otherwise be received by no'
+           ' consumer')
+  fi = m.method('get_batch')
+  g = cfgm.cfg_of(fi.node)
+  apps = [n for n in g.nodes if n.kind == 'stmt' and isinstance(n.ast, ast.Expr)
+          and isinstance(n.ast.value, ast.Call) and isinstance(n.ast.value.func, ast.Attribute)
+          and n.ast.value.func.attr == 'append' and isinstance(n.ast.value.func.value, ast.Name)
+          and any(isinstance(c, ast.Call) and unparse(c.func).endswith('get_nowait')
+                  for c in ast.walk(n.ast.value))]
+  if len(apps) != 1:
+    raise AnalysisError(f'{rule}: expected one `<list>.append(self.get_nowait())` in get_batch')
+  a = apps[0]
+  _result_empty_edge.var = a.ast.value.func.value.id
+  succ = [s_ for s_, lab in a.succ if lab == 'next']
+
+  def edge_ok(n, mm, lab):
+    if lab == 'close':
+      return False
+    if lab == 'exc' and not isinstance(n.ast, ast.Raise):
+      # implicit exceptions of bookkeeping statements are not modelled here;
+      # the dequeue call itself re-enters through its handlers
+      return any(isinstance(c, ast.Call) and unparse(c.func).endswith('get_nowait')
+                 for x in cfgm.node_exprs(n) for c in ast.walk(x))
+    return _result_empty_edge(n, mm, lab)
+
+  reach = g.reachable(succ, edge_ok=edge_ok, include_src=True)
+  raises = [n for n in reach if n.kind == 'stmt' and isinstance(n.ast, ast.Raise)]
+  seen = set()
+  n_sites = 0
+  for r_ in sorted(raises, key=lambda n: n.lineno):
+    if id(r_.ast) in seen:
+      continue
+    seen.add(id(r_.ast))
+    n_sites += 1
+    exc = r_.ast.exc
+    what = (unparse(exc.func) if isinstance(exc, ast.Call) else
+            'the caught exception' if isinstance(exc, ast.Name) or exc is None else unparse(exc)[:30])
+    ctx.fail(rule, fi, f'IteratorQueue.get_batch: raise of {what} with a partial batch',
+             f'get_batch can raise {what} after elements were already dequeued'
+             f' into `{_result_empty_edge.var}`: those elements are dropped (no'
+             ' consumer receives them)', node=r_.ast)
+  all_raises = {id(n.ast) for n in g.nodes if n.kind == 'stmt' and isinstance(n.ast, ast.Raise)}
+  for _ in range(len(all_raises) - n_sites):
+    ctx.ok(rule, fi, 'raise only reachable with an empty batch', fi.node)
+  ctx.floor(rule, 2, len(all_raises))
+
+
 # ---------------------------------------------------------------------------
 # Self-validation corpus (edits of the current tree, applied in memory)
 from mlmverif.selfcheck import B, OK  # noqa: E402
 
 _F = 'utils/iter_utils.py'
 VARIANTS = [
+    B('revert-partial-batch-on-timeout', _F,
+      '          if result:\n            # Return what is already dequeued rather than dropping it, the next\n            # call times out if the queue is still starved.\n            break\n          raise TimeoutError(',
+      '          raise TimeoutError(', 'R-C04-11'),
+    OK('partial-batch-guard-negated', _F,
+       '          if result:\n            # Return what is already dequeued rather than dropping it, the next\n            # call times out if the queue is still starved.\n            break\n          raise TimeoutError(',
+       '          if not result:\n            raise TimeoutError(f"{self.name} dequeue timeout") from e\n          break\n          raise TimeoutError('),
+    B('producer-count-overwritten', _F,
+      '      self._max_enqueuer = max(self._max_enqueuer, self._enqueue_start)',
+      '      self._max_enqueuer = self._enqueue_start', 'R-C04-10'),
+    OK('producer-count-guarded-store', _F,
+       '      self._max_enqueuer = max(self._max_enqueuer, self._enqueue_start)',
+       '      if self._enqueue_start > self._max_enqueuer:\n        self._max_enqueuer = self._enqueue_start'),
     B('no-recheck-after-handoff', _F,
       '          if not self._queue.empty():\n            continue\n          if self._dequeue_lock.wait(timeout=self.timeout):',
       '          if self._dequeue_lock.wait(timeout=self.timeout):', 'R-C04-9'),
